@@ -39,6 +39,7 @@ class Exec:
         self.held = {}          # pid -> (object, incarnation uid) yielded by the last complete iteration
         self.ref = None         # reference cache: pid -> object   (None = unknown, identity not required)
         self.flagged = set()    # pids whose cached object is_running() reported as recycled
+        self.stale = {}         # pid -> the object found recycled by is_running()
         self.viols = []
         self.label = ""
 
@@ -123,6 +124,7 @@ class Exec:
                 self.viol("is_running", "is_running() of yielded object pid %d -> %r, expected %r" % (pid, out, exp))
             if out == ("ok", False) and p is not None and p.uid != uid:
                 self.flagged.add(pid)      # psutil has now *found* the pid recycled
+                self.stale[pid] = obj
         elif k == "iter":
             lab = self.do_full_iter(ev[1])
         elif k == "gstart":
@@ -180,6 +182,12 @@ class Exec:
         for p in procs:
             self.check_yield(p, akey, "iter")
         overlapping = bool(self.gens)
+        if not overlapping:
+            for p in procs:
+                if self.stale.get(p.pid) is p:
+                    self.viol("entry-found-recycled-is-yielded-again",
+                              "pid %d: the object on which is_running() reported the recycling is yielded again by a later, "
+                              "non-overlapped process_iter()" % p.pid)
         if self.ref is not None and not overlapping:
             for p in procs:
                 old = self.ref.get(p.pid)
@@ -290,11 +298,18 @@ class Exec:
         return {"slots": {s: (None if v is None else [v[0], rel[v[1]]]) for s, v in slots.items()},
                 "tid": c.tid in w.tids, "pmap": pm, "held": held, "gens": gens,
                 "reused": sorted(ps._pids_reused), "flagged": sorted(self.flagged),
+                "stale": {pid: [ps._pmap.get(pid) is o, any(fl_pmap_has(st, pid, o) for st in self.gens)] for pid, o in sorted(self.stale.items())},
                 "ref": None if self.ref is None else sorted(self.ref)}
 
 
 def ps_cached(obj):
     return True
+
+
+def fl_pmap_has(st, pid, o):
+    g = st["g"]
+    fl = g.gi_frame.f_locals if g.gi_frame is not None else {}
+    return fl.get("pmap", {}).get(pid) is o
 
 
 def run_h(history):
@@ -413,7 +428,8 @@ def run(ctx):
     global _CFG
     _CFG = Cfg(ctx.seed, ctx.thorough)
     depth = 7 if ctx.thorough else 6
-    res = bfs(run_h, depth, ctx)
+    roots = [[["spawn", "A"], ["iter", "none"], ["die", "A"], ["spawn", "A"]]]      # a cached entry that stands for a previous owner
+    res = bfs(run_h, depth, ctx, roots=roots)
     nf, flabels, fviols, fsamples = f_part(ctx)
     res["violations"] = res["violations"] + fviols
     from vf.checks import c04s
